@@ -12,7 +12,7 @@ def same(a, b):
 
 
 def extract(g, X):
-    src = X.strip_comments(X.read("pdf/src/crypt.rs"))
+    src = X.source("pdf/src/crypt.rs")
 
     def padding():
         m = re.search(r"const\s+PADDING\s*:\s*\[u8;\s*(\d+)\]\s*=\s*\[([^\]]*)\]", src)
